@@ -111,8 +111,14 @@ fn loc(buf: &[u8], p: *const u8, len: usize, out: &mut String) {
     let b0 = buf.as_ptr() as usize;
     let b1 = b0 + buf.len();
     let a = p as usize;
-    if a >= b0 && a + len <= b1 {
+    let inside = a >= b0 && a.checked_add(len).map_or(false, |e| e <= b1);
+    if inside {
         write!(out, "{}+{}", a - b0, len).unwrap();
+    } else if len > (1 << 30) || a.checked_add(len).is_none() {
+        // absurdly long or wrapping around the address space: not a slice of anything; never dereferenced here
+        // (a field left by an EARLIER call may legitimately straddle the end of the current buffer when the
+        // buffers of a history share one allocation: that one is printed by content below)
+        write!(out, "y{}+{}", a.wrapping_sub(b0), len).unwrap();
     } else {
         // SAFETY: p/len describe a live slice handed out by the parser
         let s = unsafe { std::slice::from_raw_parts(p, len) };
